@@ -28,6 +28,9 @@ void harness (void)
     int i;
 
     VH_ASSUME (in_width <= WMAX && in_repeat == VC_REPEAT && in_px == 0x38000 && in_py == -0x20000);
+    /* non-negative pixel position: --conversion-check cannot be limited to double -> int conversions and
+     * would flag the (well-defined) unsigned casts of pixman_int_to_fixed for negative x, y */
+    VH_ASSUME (in_x >= 0 && in_y >= 0);
     memset (&img, 0, sizeof img);
     img.type = LINEAR;
     img.common.repeat = (pixman_repeat_t) (VC_REPEAT);
